@@ -100,8 +100,8 @@ theorem lastSigner_sign {K : Type} (k : K) (t : Nat) : lastSigner [Op.sign k t] 
 
 /-! ### sizes -/
 
-/-- the digest-only signature header also stays below rpm's 256 MiB header limit -/
-theorem sigsOk_nil {sha256 : Bytes → Bytes} {hb : Bytes} (h : (shaHex sha256 hb).length < 268435000) :
+/-- the digest-only signature header also stays within rpm's 64 MiB limit for signature headers -/
+theorem sigsOk_nil {sha256 : Bytes → Bytes} {hb : Bytes} (h : (shaHex sha256 hb).length < 67108000) :
     C09.SigsOk [] (shaHex sha256 hb) := by
   refine ⟨by simp, by simp, by simp, by decide, strOk_shaHex sha256 hb, ?_⟩
   have hle := Sign.fromEntries_store_le (C09.sigRecs [] (shaHex sha256 hb)) SigTag.HEADER_SIGNATURES
